@@ -10,6 +10,12 @@ Theorem C06_history : forall (a : list Z) (ops : list op),
   Forall args_ok ops -> run (into_iter a) ops = q_run a ops.
 Proof. exact history_refines. Qed.
 
+(* the same for element types whose Clone::clone is any function f of the element
+   (the clone operations then yield the images under f) *)
+Theorem C06_history_any_clone : forall (f : Z -> Z) (a : list Z) (ops : list op),
+  Forall args_ok ops -> run_gen f (into_iter a) ops = q_run_gen f a ops.
+Proof. exact history_gen_refines. Qed.
+
 (* one step from ANY state satisfying the bookkeeping invariant: output, remaining
    elements and invariant (remaining elements = a contiguous range of the slots:
    front and back consumption never overlap or skip) *)
